@@ -56,8 +56,8 @@ theorem monthly_fuel_irrelevant (r : Rule) (p : Inst) (nti F y : Nat) (m : Int) 
 /-- a filler asked for `n ≤ 64` instants writes at most `n`: the group stamp at offset 64 of the 128-entry cache and
 whatever lies behind `tgt[n)` stay untouched -/
 theorem fill_stays_in_cache (r : Rule) (p : Inst) (n : Nat) (l : List Inst) (hr : WfRule r) (hp : WfInst p)
-    (hk : KindOk r p) (hs : ShiftOk r) (hn : n ≤ 64) (h : fill r p n = some l) : l.length ≤ n ∧ l.length ≤ 64 := by
-  have := (fill_contract r p n l hr hp hk hs hn h).len_nti
+    (hs : ShiftOk r) (hn : n ≤ 64) (h : fill r p n = some l) : l.length ≤ n ∧ l.length ≤ 64 := by
+  have := (fill_contract r p n l hr hp hs hn h).len_nti
   exact ⟨this, by omega⟩
 
 /-- the cache `refill` leaves never exceeds 64 entries (with a seed kept back: 63) -/
